@@ -36,7 +36,8 @@ m = {
     "engines": [
         {"name": "lean-model", "path": "lean/", "serves_properties": claimed, "kind_free_text": "Lean 4 executable models, specifications, theorems (Log4rsModel/Properties/Cxx.lean) and the compiled line-protocol driver"},
         {"name": "harness", "path": "harness/", "serves_properties": claimed, "kind_free_text": "Rust crate with a path dependency on /repo (hooks on): case generators and executors running the real code"},
-        {"name": "check", "path": "check", "serves_properties": claimed, "kind_free_text": "per-property run: lake build, axiom audit, cargo build, generate, execute, drive, compare, failing-input search, shrink, replay, evidence"},
+        {"name": "translator", "path": "tools/translate.py", "serves_properties": [c for c in claimed if any(str(t).startswith("tools/translate.py") for t in props[c].get("trusted", []))], "kind_free_text": "second tie, run by ./check on every run: regenerates the table-like and declarative parts of the Rust source (unit tables, formatter table, serde config structs and kind registry, SGR bytes, colour-mode cascade, JSON field order, buffer capacities, $ENV{ syntax) as Lean literals in a scratch file Gen_Cxx.lean with kernel-checked obligations `Cxx_gen_*` stating model table = source table; counted in the evidence's obligations/discharged and listed under coverage.translated_from_source"},
+        {"name": "check", "path": "check", "serves_properties": claimed, "kind_free_text": "per-property run: lake build, axiom audit, translation obligations (tools/translate.py + lake env lean), cargo build, generate, execute, drive, compare, failing-input search, shrink, replay, evidence"},
     ],
     "checks": checks,
     "notes": "Every check is `./check Cxx`; known findings are in known_findings.json; seeded changes and which check catches them are in DESIGN.md section 10 and seeded/.",
